@@ -25,6 +25,7 @@ Section PartitionP.
   Notation show := (show F T D show_float show_time_iso show_time_str).
   Notation veqb := (veqb F T D feqb teqb deqb f_eq_Z).
   Notation parse_with_meta := (parse_with_meta F T D parse_float parse_time_np parse_time_fmt).
+  Notation parse_base := (parse_base F T D parse_float parse_time_np parse_time_fmt).
   Notation parse_guess := (parse_guess F T D parse_float parse_time_pd parse_delta).
   Notation val_to_num := (val_to_num F T D parse_float parse_time_np parse_time_fmt parse_time_pd parse_delta).
 
@@ -41,7 +42,7 @@ Section PartitionP.
     | KFloat _, VFloat _ => True
     | KTime _, VTime _ => True
     | KTimeTz, VTime _ => True
-    | KCat, VCat _ => True
+    | KCat _, VCat _ => True
     | _, _ => False
     end.
 
@@ -57,12 +58,16 @@ Section PartitionP.
   Lemma roundtrip_str s hive : roundtrips hive KStr (VStr s).
   Proof. reflexivity. Qed.
 
-  Lemma roundtrip_cat_str s hive : roundtrips hive KCat (VCat (VStr s)).
+  Lemma roundtrip_cat_str s hive : roundtrips hive (KCat None) (VCat (VStr s)).
   Proof. reflexivity. Qed.
 
   (* a categorical with numeric labels does NOT come back: the label dtype is not recorded *)
-  Lemma roundtrip_cat_int_refuted hive : ~ roundtrips hive KCat (VCat (VInt 1)).
+  Lemma roundtrip_cat_int_refuted hive : ~ roundtrips hive (KCat None) (VCat (VInt 1)).
   Proof. unfold roundtrips. cbn. discriminate. Qed.
+
+  (* with the label type recorded, a categorical label comes back whenever a plain value of that type does *)
+  Lemma roundtrip_cat_labels k v hive : parse_base k (show hive v) = Ok v -> roundtrips hive (KCat (Some k)) (VCat v).
+  Proof. intros H. unfold roundtrips. cbn. exact H. Qed.
 
   Lemma roundtrip_float f hive single : parse_float single (show_float f) = Some f -> roundtrips hive (KFloat single) (VFloat f).
   Proof. intros H. unfold roundtrips. cbn. now rewrite H. Qed.
@@ -104,13 +109,15 @@ Section PartitionP.
   Qed.
 
   (* ---------------------------------------------------------------- veqb on values of one kind *)
-  Definition of_kind (k : kind) (v : value) : Prop :=
+  Definition of_kind_base (k : kind) (v : value) : Prop :=
     match k, v with
-    | KInt _ _, VInt _ | KBool, VBool _ | KStr, VStr _ | KCat, VStr _ | KFloat _, VFloat _ | KTime _, VTime _ | KTimeTz, VTime _ => True
+    | KInt _ _, VInt _ | KBool, VBool _ | KStr, VStr _ | KCat _, VStr _ | KFloat _, VFloat _ | KTime _, VTime _ | KTimeTz, VTime _ => True
     | _, _ => False
     end.
+  Definition of_kind (k : kind) (v : value) : Prop :=
+    match k with KCat (Some lk) => of_kind_base lk v | _ => of_kind_base k v end.
 
-  Lemma parse_with_meta_of_kind k x v : parse_with_meta k x = Ok v -> of_kind k v.
+  Lemma parse_base_of_kind k x v : parse_base k x = Ok v -> of_kind_base k v.
   Proof.
     destruct k; cbn.
     - destruct (parse_int x); [|discriminate]. destruct (in_range _ _ _); [|discriminate]. now intros [= <-].
@@ -123,7 +130,10 @@ Section PartitionP.
     - now intros [= <-].
   Qed.
 
-  Lemma veqb_of_kind_eq k a b : of_kind k a -> of_kind k b -> veqb a b = true -> a = b.
+  Lemma parse_with_meta_of_kind k x v : parse_with_meta k x = Ok v -> of_kind k v.
+  Proof. destruct k as [| | | | | |[lk|]]; try apply parse_base_of_kind. Qed.
+
+  Lemma veqb_of_kind_base_eq k a b : of_kind_base k a -> of_kind_base k b -> veqb a b = true -> a = b.
   Proof.
     destruct k, a, b; cbn; try tauto; intros _ _ H.
     - apply Z.eqb_eq in H. now subst.
@@ -135,7 +145,10 @@ Section PartitionP.
     - destruct (str_eqb_spec s s0); [now subst|discriminate].
   Qed.
 
-  Lemma veqb_refl_of_kind k a : of_kind k a -> veqb a a = true.
+  Lemma veqb_of_kind_eq k a b : of_kind k a -> of_kind k b -> veqb a b = true -> a = b.
+  Proof. destruct k as [| | | | | |[lk|]]; try apply veqb_of_kind_base_eq. Qed.
+
+  Lemma veqb_refl_of_kind_base k a : of_kind_base k a -> veqb a a = true.
   Proof.
     destruct k, a; cbn; try tauto; intros _.
     - apply Z.eqb_refl.
@@ -146,6 +159,9 @@ Section PartitionP.
     - destruct (teqb_spec t t); congruence.
     - apply str_eqb_refl.
   Qed.
+
+  Lemma veqb_refl_of_kind k a : of_kind k a -> veqb a a = true.
+  Proof. destruct k as [| | | | | |[lk|]]; try apply veqb_refl_of_kind_base. Qed.
 
   (* ---------------------------------------------------------------- list.index *)
   Lemma index_of_nth {A} (eqb : A -> A -> bool) x l i :
